@@ -4,13 +4,19 @@ FINCHK-WITNESS (GetCandidateTree, both explicit cores): the witness must accept 
 input does, so every state that enters the reachable set must have its finality looked at: either
 a closing filter `for s in finalStates_: if reachable.count(s) SetStateFinal(s)` covers all sites, or
 each first-visit insert of x is accompanied (same loop body) by `if (IsStateFinal(x)) SetStateFinal(x)`.
-A site without either loses words accepted at that state (e.g. the empty word at a final start state)."""
+A site without either loses words accepted at that state (e.g. the empty word at a final start state).
+FINCHK-INCL (upward / forward inclusion: explicit up, generic up functor, NFA antichain): a pair
+(state q of A, macro-state of B) is recorded in the exploration antichain only after A's finality of q
+has been looked at in the same iteration (the test that, together with the macro-state's accepting
+flag, yields the counterexample exit). Wrappers that insert their own parameter are checked at their
+call sites; pairs moved over from another antichain's data() were checked when they entered it."""
 from vfacts import strip, walk, method_name, root_path, enclosing, is_node
 from .worklist import insert_call_of, key_text
 
 RULE = 'FINCHK'
-FLOOR = 3
+FLOOR = 8
 ANCHORS = ['ExplicitFiniteAutCore::GetCandidateTree', 'ExplicitTreeAutCore::GetCandidateTree']
+ANCHORS_ALL = ANCHORS
 LOOPS = ('CXXForRangeStmt', 'ForStmt', 'WhileStmt', 'DoStmt')
 
 
@@ -37,9 +43,67 @@ def closing_filter(unit, fn, V):
     return None
 
 
+INCL_SCOPE = ('ExplicitUpwardInclusion::checkInternal', 'UpwardInclusionFunctor::operator()',
+              'ExplicitFAInclusionFunctorCache::Init', 'ExplicitFAInclusionFunctorCache::MakePost')
+PAIR_WRAPPERS = ('AddNewPairToAntichain', 'cachePair')
+
+
+def run_incl(unit, fn, em):
+    params = {p['d'] for p in fn.params}
+    for c in fn.calls():
+        m = method_name(c)
+        args = c.get('args', [])
+        is_ac_insert = c['k'] == 'CXXMemberCallExpr' and m == 'insert' and len(args) == 2 and 'Antichain2C' in (c.get('q') or '')
+        if not (is_ac_insert or m in PAIR_WRAPPERS) or not args:
+            continue
+        k = strip(args[0])
+        if k is None:
+            continue
+        if k['k'] == 'DeclRefExpr' and k.get('d') in params:
+            continue  # wrapper inserting its own parameter
+        ktxt = unit.text(k, 0)
+        txt = unit.text(c, 80)
+        # pair transferred from another antichain's data()?
+        lp = enclosing(c, ('CXXForRangeStmt',))
+        transferred = False
+        cur = c
+        while cur is not None:
+            cur = enclosing(cur, ('CXXForRangeStmt',))
+            if cur is not None and 'data()' in unit.text(cur.get('range'), 0):
+                transferred = True
+        if transferred:
+            em.ok(c, txt, 'pair moved over from an antichain whose entries were checked when they entered it', 'incl')
+            continue
+        loop = enclosing(c, LOOPS)
+        scope = loop['body'] if loop is not None and is_node(loop.get('body')) else fn.body
+        (_, cl, cc) = unit.loc(c)
+        found = None
+        for x in walk(scope, lambdas=False):
+            if x['k'] not in ('CXXMemberCallExpr',) or not x.get('args'):
+                continue
+            (_, xl, xc) = unit.loc(x)
+            if (xl, xc) >= (cl, cc):
+                continue
+            mm = method_name(x)
+            obj_txt = unit.text(x.get('obj'), 0)
+            if unit.text(strip(x['args'][0]), 0) != ktxt:
+                continue
+            if mm == 'IsStateFinal' and 'bigger' not in obj_txt.lower():
+                found = x
+            elif mm in ('count', 'find') and 'inal' in obj_txt and 'bigger' not in obj_txt.lower():
+                found = x
+        if found is not None:
+            em.ok(c, txt, 'finality of %s in the smaller automaton is looked at first (%s)' % (ktxt, unit.text(found, 50)), 'incl')
+        else:
+            em.violation(c, txt, 'the pair for state %s is recorded without the smaller automaton\'s finality of %s having been looked at in this iteration: an accepting state of A paired with a non-accepting macro-state of B is not reported as a counterexample' % (ktxt, ktxt), 'incl')
+
+
 def run(unit, em):
     for fn in unit.functions:
         short = fn.q.replace('VATA::', '')
+        if fn.body is not None and short in INCL_SCOPE:
+            em.anchor(fn, short)
+            run_incl(unit, fn, em)
         if short not in ANCHORS or fn.body is None:
             continue
         em.anchor(fn, short)
